@@ -7,12 +7,12 @@ RULE = "Same program space as C09 with read operations weighted up: after modifi
 ASSUMPTIONS = ['live SQLite (in-memory) with foreign keys enforced immediately',
                'reference store vlib/refstore.py written from the documented relationship/cascade/key semantics (DESIGN.md section 7a)',
                'table and column names are taken from the mapping metadata (names only)']
-SHARDS = {'quick': 4, 'thorough': 16}
-MIN_EVALS = {'quick': 400, 'thorough': 5000}
+SHARDS = {'quick': 8, 'thorough': 16}
+MIN_EVALS = {'quick': 2000, 'thorough': 5000}
 PROPS = {'C10'}
 WEIGHTS = {'read': 14, 'flush': 1}
 
-run = sesscheck.make_run(ID, PROPS, 500, 6000, weights=WEIGHTS,
+run = sesscheck.make_run(ID, PROPS, 700, 6000, weights=WEIGHTS,
                          nontrivial=lambda program, stats: any(k.startswith('read:') for k in stats) and stats.get('call_ok', 0) > 2)
 replay = sesscheck.make_replay(ID, PROPS)
 
